@@ -45,6 +45,11 @@ CLAIMED["C12"] = ("ovf-codec", "exploration",
   "Generated histories of sessions and writes (both directions, TCP and UDP, up to >256 chunks) are encoded by the real codecs; the reference decoder only opens a unit if the implementation used exactly the expected (key, nonce), so a successful decode yields the multiset of pairs, which must be duplicate-free; per-session random fields (salts, session ids, VMess key, IV, connection nonce, auth-id) must be pairwise distinct; packet ids strictly increase and stop at exhaustion (hook starts a session below u64::MAX). Exploration; unpredictability is not claimed.",
   "Trusted: reference decoder's key/nonce derivations; every compared random tuple carries >= 64 random bits so a chance collision in a run is < 1e-10.", "DESIGN.md 5/C12")
 
+CLAIMED["C13"] = ("ovf-codec", "exploration",
+  "grammar-based differential property testing of the authority extraction against an independent RFC 3986 extractor; scripted-application testing of the real handshake on loopback sockets with generated segmentation and early payload",
+  "Level 1: request targets generated from an RFC 3986/9112 grammar are parsed by the real extraction and by an independent extractor, which must agree on host, port, kind and refusal. Level 2: the real get_request_addr runs on a real loopback connection against a scripted application that sends SOCKS5/CONNECT/absolute-URI handshakes in generated segmentations with optional early tunnel payload; returned target, protocol replies and the exact bytes left for the tunnel are checked; malformed and unsupported requests must be refused. Exploration.",
+  "Trusted: independent extractor (40 lines), reference SOCKS5 parsers; loopback TCP. Deadline-based outcomes (5 s for a microsecond event) are re-run in isolation before being reported.", "DESIGN.md 5/C13")
+
 PENDING = {}
 
 def main():
